@@ -21,7 +21,10 @@ class RequirementsTxtParser(BaseParser):
             whole_file = f.read()
 
         enc = chardet.detect(whole_file)
-        if enc["confidence"] > 0.9:
+        if not whole_file.strip():
+            # an empty requirements file declares nothing (chardet has no confidence in it)
+            lines = []
+        elif enc["confidence"] > 0.9:
             encoding = enc.get("encoding")
             decoded = whole_file.decode(encoding.lower()) if encoding else ""
             lines = decoded.splitlines() if decoded else []
